@@ -145,6 +145,36 @@ def spiral_snake(rng, fam):
     return d
 
 
+def long_spiral(rng, fam, nmax):
+    """SCALING family (round 7): the connected spiral of arXiv:1804.07832 (generic `cup`/`cap`
+    boxes around a unit/counit pair) with 3..nmax turns, as it is or mirrored, optionally with a
+    yankable snake on the unit's wire and a context wire.  Its normalisation needs about n**3 / 7
+    interchanges for n boxes — more than n**2 from 14 boxes on — while every step is cheap: a
+    connected diagram must be normalised however long the trace is."""
+    m = fam.m
+    x = m.Ty(m.Ob(rng.choice(["a", "b"]), rng.choice([0, 0, 1, -1])))
+    Id, Box = m.Id, m.Box
+    n = rng.randint(3, nmax)
+    mirrored, snake = rng.random() < 0.5, rng.random() < 0.6
+    unit, counit = Box("unit", m.Ty(), x), Box("counit", x, m.Ty())
+    cup, cap = Box("cup", x @ x, m.Ty()), Box("cap", m.Ty(), x @ x)
+
+    def pw(k):
+        t = m.Ty()
+        for _ in range(k):
+            t = t @ x
+        return t
+    d = unit
+    if snake:
+        d = d >> (Id(x.l).transpose() if rng.random() < 0.5 else Id(x.r).transpose(left=True))
+    for i in range(n):
+        d = d >> (Id(pw(i + 1)) @ cap @ Id(pw(i)) if mirrored else Id(pw(i)) @ cap @ Id(pw(i + 1)))
+    d = d >> Id(pw(n)) @ counit @ Id(pw(n))
+    for i in range(n):
+        d = d >> Id(pw(n - i - 1)) @ cup @ Id(pw(n - i - 1))
+    return d, "n=%d:%s:%s" % (n, "mirrored" if mirrored else "plain", "snake" if snake else "nosnake")
+
+
 def gbox(name, dom, cod):
     return dict(kind="g", name=name, dom=list(dom), cod=list(cod), dagger=False, data=None)
 
@@ -581,6 +611,7 @@ def run(tier, seed, replay=None):
     rep.lean = lean_obligations(PROP, thorough=(tier == "thorough"))
     n_diagrams = 600 if tier == "quick" else 9000
     n_same = 130 if tier == "quick" else 1500      # extra diagrams of the family `same_box_snake`
+    n_long = 14 if tier == "quick" else 60         # SCALING family `long_spiral` (traces > n**2 steps)
     rng = random.Random(seed)
     irng = random.Random("C07-object-identity-%d" % seed)   # its own stream: the others are unchanged
     drv = Driver()
@@ -592,9 +623,9 @@ def run(tier, seed, replay=None):
         todo_pinned = []
         rep.fail("construction_raises:" + err_class(exc), dict(family="pinned"), repr(exc)[:200])
     try:
-        for k in range(-len(todo_pinned), n_diagrams + n_same):
+        for k in range(-len(todo_pinned), n_diagrams + n_same + n_long):
             sub = random.Random(rng.getrandbits(64))
-            which = k % 12 if k < n_diagrams else 12
+            which = k % 12 if k < n_diagrams else 12 if k < n_diagrams + n_same else 13
             e1 = None
             # object identity: a third of the diagrams (all of family 12 but one in six) are built by
             # a family that hands out the SAME Box object for the same spec
@@ -606,6 +637,11 @@ def run(tier, seed, replay=None):
             try:
                 if k < 0:
                     kinds, d = ["pinned"], todo_pinned[k]
+                elif which == 13:
+                    d, shape = long_spiral(sub, fam_fresh, 7 if tier == "quick" else 9)
+                    kinds = ["long_spiral"]
+                    for tok in shape.split(":"):
+                        rep.count("long_spiral:" + tok)
                 elif which == 12:
                     B, shape = same_box_snake(sub)
                     rep.count("same_box_snake:" + shape.split(":")[0])
@@ -715,10 +751,12 @@ def run(tier, seed, replay=None):
                              "than %d steps" % (left, n, limit))
                 removed = (len(d.boxes) - len(steps[-1].boxes)) // 2 if steps else 0
                 rep.count("pairs_removed:%d" % min(removed, 4))
+                if which == 13:
+                    rep.count("long_spiral:trace_%s_n_squared" % ("over" if len(steps) > n * n else "under"))
                 both_way = any(both_way_redex(s) for s in [d] + steps[:CAP])
                 if both_way:
                     rep.count("both_way_redex_seen:left=%d" % left)
-                sent = steps[:CAP]
+                sent = steps if finished else steps[:CAP]     # a finished trace is judged whole
                 line = "strace %d %s %s" % (
                     1 if left else 0, tok_expr(e),
                     " ".join([str(len(sent))] + [tok_expr(spec_diagram(s)) for s in sent]))
@@ -741,7 +779,9 @@ def run(tier, seed, replay=None):
                                      mine[:400])
                 rep.case(line, removed >= 1 or both_way)
                 rep.sample(dict(request=line[:300], answer=ans))
-                F = IntFunctor(random.Random(rng.getrandbits(32)))
+                # the spirals are up to 2 * 9 + 3 wires wide: one-dimensional wires there (the
+                # family is about termination; the semantics of its steps is covered elsewhere)
+                F = IntFunctor(random.Random(rng.getrandbits(32)), maxdim=1 if which == 13 else 2)
                 ref = F.eval(d)
                 for idx, s in enumerate(steps[:60]):
                     why = wf_failure(s)
